@@ -311,6 +311,16 @@ class G:
             subs.append(self.component(r.choice(("VEVENT", "VEVENT", "VEVENT", "VTODO", "VJOURNAL", "VFREEBUSY"))))
         if self.unknown and r.randrange(5) == 0:
             subs.append(self.unknown_component(2))
+        # unusual shapes: a component with nothing in it; one property name repeated many times
+        if r.randrange(12) == 0:
+            subs.insert(r.randrange(len(subs) + 1), ("comp", r.choice(("VEVENT", "VTODO", "VJOURNAL", "X-EMPTY") if self.unknown else ("VEVENT", "VTODO", "VJOURNAL")), (), ()))
+        if r.randrange(15) == 0 and subs:
+            i = r.randrange(len(subs))
+            c = subs[i]
+            if c[1] in ("VEVENT", "VTODO", "VJOURNAL"):
+                name = r.choice(("ATTENDEE", "COMMENT", "X-MANY"))
+                many = tuple((name, (), ("caladdress", f"mailto:many{j}@example.com") if name == "ATTENDEE" else ("text", f"many {j}")) for j in range(r.randrange(20, 45)))
+                subs[i] = (c[0], c[1], c[2] + many, c[3])
         return ("comp", "VCALENDAR", tuple(props), tuple(subs))
 
 
